@@ -157,6 +157,42 @@ def straightline(src, fn, targets, params, tables, consts, abstract=()):
                 if done == set(targets):
                     return tuple(env[k] for k in targets)
             continue
+        # in-place conversions and wraps of the output stage
+        if isinstance(st, ast.Expr) and isinstance(st.value, ast.Call):
+            call = st.value
+            f = call.func.id if isinstance(call.func, ast.Name) else (call.func.attr if isinstance(call.func, ast.Attribute) and _is_name(call.func.value, "np") else None)
+            names = [a.id for a in call.args if isinstance(a, ast.Name)]
+            kws = {k.arg: k.value for k in call.keywords}
+            # rad2deg(v, out=v) / np.rad2deg(v, v)
+            if f == "rad2deg" and len(call.args) >= 1 and isinstance(call.args[0], ast.Name) and (
+                    (len(call.args) == 2 and names == [names[0], names[0]] and not kws)
+                    or (len(call.args) == 1 and list(kws) == ["out"] and _is_name(kws["out"], names[0]))):
+                if names[0] in env:
+                    env[names[0]] = "(%s * R2D)" % env[names[0]]
+                continue
+            # arctan2(a, b, a): in place
+            if f == "arctan2" and len(call.args) == 3 and len(names) == 3 and names[2] == names[0] and not kws:
+                if names[0] in env and names[1] in env:
+                    env[names[0]] = "(atan2 %s %s)" % (env[names[0]], env[names[1]])
+                    continue
+            # atbound(v, lo, hi) / atbound2(theta, phi): the callee is modelled separately (atbound, atbound2 of Model.v)
+            if f == "atbound" and isinstance(call.func, ast.Name) and len(call.args) == 3 and isinstance(call.args[0], ast.Name) and not kws \
+                    and call.args[0].id in env:
+                v = call.args[0].id
+                env[v] = "(atb %s %s %s)" % (env[v], _r(src.num(call.args[1])), _r(src.num(call.args[2])))
+                continue
+            if f == "atbound2" and isinstance(call.func, ast.Name) and len(names) == 2 and len(call.args) == 2 and not kws \
+                    and all(n in env for n in names):
+                a, b = env[names[0]], env[names[1]]
+                env[names[0]] = "(fst (atb2 %s %s))" % (a, b)
+                env[names[1]] = "(snd (atb2 %s %s))" % (a, b)
+                continue
+        # `if is_scalar: v = v[0]` -- unwrapping of length-1 results, the values are unchanged
+        if isinstance(st, ast.If) and _is_name(st.test, "is_scalar") and not st.orelse and all(
+                isinstance(b, ast.Assign) and len(b.targets) == 1 and isinstance(b.targets[0], ast.Name)
+                and isinstance(b.value, ast.Subscript) and _is_name(b.value.value, b.targets[0].id)
+                and isinstance(b.value.slice, ast.Constant) and b.value.slice.value == 0 for b in st.body):
+            continue
         if isinstance(st, ast.Return) and targets is None:
             v = st.value
             _need(isinstance(v, ast.Tuple) and all(isinstance(e, ast.Name) for e in v.elts), "%s returns a tuple of names" % fn.name)
@@ -506,6 +542,14 @@ def extract(path):
         "xyz2thetaphi": straightline(s, s.funcs["_xyz2thetaphi"], None, {"x": "x", "y": "y", "z": "z"}, {}, {})
         if c["lat_atan2"]["xyz2eq"] else None,
     }
+    c["outstage"]["rotate"] = straightline(
+        s, s.funcs["rotate"], None, {"phi": "phi", "theta": "theta", "psi": "psi", "ra": "ra", "dec": "dec"}, {},
+        {"D2R": "D2R", "R2D": "R2D", "PI": "PI"}, abstract=("x", "y", "z")) if c["lat_atan2"]["rotate"] else None
+    sd = {"D2R": "D2R", "R2D": "R2D", "_sdsspar:etapole": "sdss_etapole", "_sdsspar:node": "sdss_node"}
+    c["outstage"]["eq2sdss"] = straightline(s, s.funcs["eq2sdss"], None, {"ra": "ra", "dec": "dec"}, {}, sd,
+                                            abstract=("x", "y", "z")) if c["lat_atan2"]["eq2sdss"] else None
+    c["outstage"]["sdss2eq"] = straightline(s, s.funcs["sdss2eq"], None, {"clambda": "clambda", "ceta": "ceta"}, {}, sd,
+                                            abstract=("x", "y", "z")) if c["lat_atan2"]["sdss2eq"] else None
     for k, v in c["outstage"].items():
         _need(v is None or len(v) == 2, "%s returns (longitude, latitude)" % k)
     # shiftra just forwards
@@ -603,8 +647,11 @@ def emit(c):
     w("")
     w("(* the output stage: the returned (longitude, latitude) as functions of x, y, z, translated from the source;")
     w("   numpy's arctan2 and float % are parameters (Model.atan2, Model.Rmod are plugged in by Proofs.v) *)")
-    osig = {"euler": "(atan2 Rmod : R -> R -> R) (psi x y z : R)", "xyz2thetaphi": "(atan2 Rmod : R -> R -> R) (x y z : R)"}
-    for k in ("euler", "xyz2thetaphi"):
+    osig = {"euler": "(atan2 Rmod : R -> R -> R) (psi x y z : R)", "xyz2thetaphi": "(atan2 Rmod : R -> R -> R) (x y z : R)",
+            "rotate": "(atan2 Rmod : R -> R -> R) (phi theta psi ra dec x y z : R)",
+            "eq2sdss": "(atan2 : R -> R -> R) (atb : R -> R -> R -> R) (ra dec x y z : R)",
+            "sdss2eq": "(atan2 : R -> R -> R) (atb2 : R -> R -> R * R) (clambda ceta x y z : R)"}
+    for k in ("euler", "xyz2thetaphi", "rotate", "eq2sdss", "sdss2eq"):
         f = c["outstage"][k]
         if f is None:
             w("Definition %s_out_src %s : option (R * R) := None.  (* as-found shape (arcsin) *)" % (k, osig[k]))
